@@ -22,6 +22,19 @@
 //!   with --compare additionally (cmp "case id" "Struct" match|(mismatch "what" ...)) and counts in the summary
 //!   (summary cases N modules M structs S measured A skipped B seconds S)
 //!
+//! mode exec (C07 / C12 / C14 / C16: the generated code is RUN, compiled by rustc against the real wgpu):
+//!   (vbuf "case" <opt> "Struct" (stride n) (step Vertex|Instance) (attr <Format> <offset> <location>) ...)
+//!        = `Struct::vertex_buffer_layout(step)` as evaluated by the compiler (offset_of!, size_of)
+//!   (ventry "case" <opt> "<entry>_entry" (call j) (entry_point "name") (constants n) (buf (stride ..) (step ..) (attr ..)...) ...)
+//!        call j passes `Instance` to the j-th step-mode parameter only (j = number of parameters: none)
+//!   (fentry "case" <opt> "<entry>_entry" (entry_point "name") (targets n) (constants n))
+//!   (source "case" <opt> <len> <fnv64> same|differs)   the embedded SOURCE literal as the compiler reads it
+//!   (ovr "case" <opt> <assignment> finite|nonfinite (fields (field "name" ty none|(some v)) ...) (map ("key" f64bits) ...))
+//!        = `OverrideConstants { .. }.constants()`
+//!   (ovres "case" <opt> <assignment> finite|nonfinite [ (keys-differ (expected..) (got..)) ] accepted [(value-differs ..)...] | (rejected "Variant" "text"))
+//!        = the REAL naga::back::pipeline_constants::process_overrides on that map: accepted, and every supplied
+//!          value is the literal the resolved module holds for that override
+//!
 //! How a module verdict is reached (per scratch crate = per job):
 //!   phase A  `cargo check` of all modules; modules with parser-level errors are recorded as `syntax`,
 //!            removed, and the check is repeated (at most 6 rounds).  Every error is attributed to the
@@ -726,7 +739,7 @@ struct Args {
 fn parse_args() -> Args {
     let argv: Vec<String> = std::env::args().collect();
     if argv.len() < 2 {
-        eprintln!("usage: batch check|encase --cases F --out F [--opts i,j] [--jobs N] [--keep] [--compare]");
+        eprintln!("usage: batch check|encase|exec --cases F --out F [--opts i,j] [--jobs N] [--keep] [--compare]");
         std::process::exit(2);
     }
     let mut a = Args {
@@ -1550,12 +1563,499 @@ fn mode_encase(a: &Args) {
     finish(a, &work, jobs);
 }
 
+// ---------------------------------------------------------------------------------------------
+// mode exec: run the REAL generated code (C07 vertex buffer layouts, C12 override maps, C14 entry helpers)
+// ---------------------------------------------------------------------------------------------
+
+#[allow(dead_code)]
+struct ExecPlan {
+    code: String,
+    vbufs: usize,
+    ventries: usize,
+    fentries: usize,
+    ovr_assignments: usize,
+}
+
+fn type_text(t: &syn::Type) -> String {
+    quote::ToTokens::to_token_stream(t).to_string().replace(' ', "")
+}
+
+/// values tried for an override field of the given Rust type; `(expression, is_finite)`
+fn override_values(ty: &str) -> Option<Vec<(&'static str, bool)>> {
+    Some(match ty {
+        "bool" => vec![("true", true), ("false", true)],
+        "i32" => vec![("0i32", true), ("1i32", true), ("-1i32", true), ("i32::MIN", true), ("i32::MAX", true), ("123456789i32", true), ("-16777217i32", true)],
+        "u32" => vec![("0u32", true), ("1u32", true), ("u32::MAX", true), ("4000000000u32", true), ("16777217u32", true)],
+        "f32" => vec![
+            ("0.0f32", true),
+            ("-0.0f32", true),
+            ("1.5f32", true),
+            ("f32::MAX", true),
+            ("f32::MIN_POSITIVE", true),
+            ("-f32::MAX", true),
+            ("1e-40f32", true),
+            ("16777216.0f32", true),
+            ("0.1f32", true),
+            ("f32::INFINITY", false),
+            ("f32::NAN", false),
+            ("f32::NEG_INFINITY", false),
+        ],
+        "f64" => vec![("0.0f64", true), ("-2.5f64", true), ("f64::MAX", true), ("1e-310f64", true), ("f64::INFINITY", false)],
+        _ => return None,
+    })
+}
+
+fn plan_exec(u: &Unit) -> Result<ExecPlan, String> {
+    let file = syn::parse_file(&u.text).map_err(|e| format!("syn: {e}"))?;
+    let mut body = String::new();
+    let (mut vbufs, mut ventries, mut fentries, mut ovr_assignments) = (0, 0, 0, 0);
+
+    // OverrideConstants: field names and types
+    let mut ovr_fields: Option<Vec<(String, String, bool)>> = None; // (name, scalar type, optional)
+    for it in &file.items {
+        if let syn::Item::Struct(s) = it {
+            if s.ident == "OverrideConstants" {
+                let mut v = vec![];
+                for f in s.fields.iter() {
+                    let name = f.ident.as_ref().map(|i| i.to_string()).unwrap_or_default();
+                    let t = type_text(&f.ty);
+                    let (inner, optional) = match t.strip_prefix("Option<").and_then(|r| r.strip_suffix('>')) {
+                        Some(i) => (i.to_string(), true),
+                        None => (t.clone(), false),
+                    };
+                    if override_values(&inner).is_none() {
+                        return Err(format!("override field {name}: unsupported type {t}"));
+                    }
+                    v.push((name, inner, optional));
+                }
+                ovr_fields = Some(v);
+            }
+        }
+    }
+    // an OverrideConstants value for assignment `a`; `nonfinite`: float fields take infinities / NaN
+    let make_ovr = |a: usize, nonfinite: bool| -> (String, String) {
+        let fields = ovr_fields.as_ref().unwrap();
+        let mut init = String::new();
+        let mut rep = String::new();
+        for (i, (name, ty, optional)) in fields.iter().enumerate() {
+            let all = override_values(ty).unwrap();
+            let vals: Vec<&str> = if nonfinite && all.iter().any(|v| !v.1) {
+                all.iter().filter(|v| !v.1).map(|v| v.0).collect()
+            } else {
+                all.iter().filter(|v| v.1).map(|v| v.0).collect()
+            };
+            let e = vals[(a + i) % vals.len()];
+            let is_none = *optional && (a + i) % 3 == 0;
+            let fname = name.clone();
+            let plain = name.trim_start_matches("r#");
+            if *optional {
+                if is_none {
+                    let _ = write!(init, "{fname}: None, ");
+                    let _ = write!(rep, "f{ty}({}, None), ", rust_str(plain));
+                } else {
+                    let _ = write!(init, "{fname}: Some({e}), ");
+                    let _ = write!(rep, "f{ty}({}, Some({e})), ", rust_str(plain));
+                }
+            } else {
+                let _ = write!(init, "{fname}: {e}, ");
+                let _ = write!(rep, "f{ty}({}, Some({e})), ", rust_str(plain));
+            }
+        }
+        (format!("m::OverrideConstants {{ {init}}}"), format!("&[{rep}]"))
+    };
+
+    for it in &file.items {
+        match it {
+            // impl S { pub const VERTEX_ATTRIBUTES ..; pub const fn vertex_buffer_layout(..) }
+            syn::Item::Impl(im) if im.trait_.is_none() => {
+                let has = im.items.iter().any(|x| matches!(x, syn::ImplItem::Fn(f) if f.sig.ident == "vertex_buffer_layout"));
+                if !has {
+                    continue;
+                }
+                let name = type_text(&im.self_ty);
+                let prefix = format!("(vbuf {} {} {}", quoted(&u.case_id), u.opt, quoted(&name));
+                let _ = writeln!(body, "    vbuf({}, &m::{name}::vertex_buffer_layout(mode(true)));", rust_str(&prefix));
+                let _ = writeln!(body, "    vbuf({}, &m::{name}::vertex_buffer_layout(mode(false)));", rust_str(&prefix));
+                vbufs += 1;
+            }
+            syn::Item::Fn(f) => {
+                let fname = f.sig.ident.to_string();
+                let ret = match &f.sig.output {
+                    syn::ReturnType::Type(_, t) => type_text(t),
+                    _ => String::new(),
+                };
+                let params: Vec<(String, String)> = f
+                    .sig
+                    .inputs
+                    .iter()
+                    .filter_map(|a| match a {
+                        syn::FnArg::Typed(p) => Some((quote::ToTokens::to_token_stream(&p.pat).to_string(), type_text(&p.ty))),
+                        _ => None,
+                    })
+                    .collect();
+                if ret.starts_with("VertexEntry<") {
+                    let steps = params.iter().filter(|p| p.1.contains("VertexStepMode")).count();
+                    let prefix = format!("(ventry {} {} {}", quoted(&u.case_id), u.opt, quoted(&fname));
+                    // call j gives `Instance` to step parameter j only; call `steps` gives `Vertex` to all
+                    for j in 0..=steps {
+                        let mut args = vec![];
+                        let mut si = 0;
+                        for (_, t) in &params {
+                            if t.contains("VertexStepMode") {
+                                args.push(format!("mode({})", si == j));
+                                si += 1;
+                            } else if t.contains("OverrideConstants") {
+                                if ovr_fields.is_none() {
+                                    return Err("entry takes overrides but there is no OverrideConstants struct".into());
+                                }
+                                args.push(format!("&{}", make_ovr(j, false).0));
+                            } else {
+                                return Err(format!("{fname}: unexpected parameter type {t}"));
+                            }
+                        }
+                        let _ = writeln!(body, "    {{ let e = m::{fname}({}); ventry({}, {j}, e.entry_point, &e.buffers, &e.constants); }}", args.join(", "), rust_str(&prefix));
+                    }
+                    ventries += 1;
+                } else if ret.starts_with("FragmentEntry<") {
+                    let _n: usize = ret.trim_start_matches("FragmentEntry<").trim_end_matches('>').parse().map_err(|_| format!("{fname}: {ret}"))?;
+                    let prefix = format!("(fentry {} {} {}", quoted(&u.case_id), u.opt, quoted(&fname));
+                    let mut args = vec![];
+                    for (_, t) in &params {
+                        if t.contains("ColorTargetState") {
+                            args.push("std::array::from_fn(|_| None)".to_string());
+                        } else if t.contains("OverrideConstants") {
+                            if ovr_fields.is_none() {
+                                return Err("entry takes overrides but there is no OverrideConstants struct".into());
+                            }
+                            args.push(format!("&{}", make_ovr(1, false).0));
+                        } else {
+                            return Err(format!("{fname}: unexpected parameter type {t}"));
+                        }
+                    }
+                    let _ = writeln!(body, "    {{ let e = m::{fname}({}); fentry({}, e.entry_point, e.targets.len(), &e.constants); }}", args.join(", "), rust_str(&prefix));
+                    fentries += 1;
+                }
+            }
+            _ => {}
+        }
+    }
+    let has_source = file.items.iter().any(|it| matches!(it, syn::Item::Const(c) if c.ident == "SOURCE"));
+    if has_source {
+        let prefix = format!("(source {} {}", quoted(&u.case_id), u.opt);
+        let _ = writeln!(body, "    source({}, m::SOURCE);", rust_str(&prefix));
+    }
+    if let Some(fields) = &ovr_fields {
+        let has_f = fields.iter().any(|f| f.1 == "f32" || f.1 == "f64");
+        let n_finite = 9;
+        for a in 0..n_finite + if has_f { 3 } else { 0 } {
+            let nonfinite = a >= n_finite;
+            let (ctor, rep) = make_ovr(a, nonfinite);
+            let prefix = format!("(ovr {} {} {a} {}", quoted(&u.case_id), u.opt, if nonfinite { "nonfinite" } else { "finite" });
+            let _ = writeln!(body, "    {{ let o = {ctor}; ovr({}, {rep}, &o.constants()); }}", rust_str(&prefix));
+            ovr_assignments += 1;
+        }
+    }
+    let code = format!("use super::m{} as m;\nuse super::support::*;\n\npub fn run() {{\n{body}}}\n", u.k);
+    Ok(ExecPlan { code, vbufs, ventries, fentries, ovr_assignments })
+}
+
+/// the REAL naga `process_overrides` on the map the generated code produced
+fn resolve_overrides(src: &str, line: &str) -> Sexp {
+    use naga::valid::{Capabilities, ValidationFlags, Validator};
+    let Some(parsed) = sexp::parse(line) else { return tagged("ovres", vec![atom("bad-line")]) };
+    let Some(Sexp::List(items)) = parsed.first() else { return tagged("ovres", vec![atom("bad-line")]) };
+    let head: Vec<Sexp> = items[1..5].to_vec();
+    let mut fields: Vec<(String, String, Option<u64>, bool)> = vec![]; // name, ty, value (bits / number), negative flag for i32
+    let mut map = naga::back::PipelineConstants::default();
+    let mut raw_i32: BTreeMap<String, i64> = BTreeMap::new();
+    for it in &items[5..] {
+        let Sexp::List(v) = it else { continue };
+        match v.first() {
+            Some(Sexp::Atom(t)) if t == "fields" => {
+                for f in &v[1..] {
+                    let Sexp::List(fv) = f else { continue };
+                    let (Some(Sexp::Str(name)), Some(Sexp::Atom(ty))) = (fv.get(1), fv.get(2)) else { continue };
+                    match fv.get(3) {
+                        Some(Sexp::List(sv)) => {
+                            let Some(Sexp::Atom(n)) = sv.get(1) else { continue };
+                            if ty == "i32" {
+                                let x: i64 = n.parse().unwrap_or(0);
+                                raw_i32.insert(name.clone(), x);
+                                fields.push((name.clone(), ty.clone(), Some(x as u64), x < 0));
+                            } else {
+                                fields.push((name.clone(), ty.clone(), Some(n.parse::<u64>().unwrap_or(0)), false));
+                            }
+                        }
+                        _ => fields.push((name.clone(), ty.clone(), None, false)),
+                    }
+                }
+            }
+            Some(Sexp::Atom(t)) if t == "map" => {
+                for e in &v[1..] {
+                    let Sexp::List(ev) = e else { continue };
+                    let (Some(Sexp::Str(k)), Some(Sexp::Atom(bits))) = (ev.first(), ev.get(1)) else { continue };
+                    map.insert(k.clone(), f64::from_bits(bits.parse::<u64>().unwrap_or(0)));
+                }
+            }
+            _ => {}
+        }
+    }
+    let module = match naga::front::wgsl::parse_str(src) {
+        Ok(m) => m,
+        Err(_) => return tagged("ovres", [head, vec![atom("parse-error")]].concat()),
+    };
+    let info = match Validator::new(ValidationFlags::all(), Capabilities::all()).validate(&module) {
+        Ok(i) => i,
+        Err(_) => return tagged("ovres", [head, vec![atom("invalid")]].concat()),
+    };
+    // expected keys: decimal @id when given, the name otherwise; and which overrides are required
+    let mut expect_keys: BTreeSet<String> = BTreeSet::new();
+    for (_, o) in module.overrides.iter() {
+        let name = o.name.clone().unwrap_or_default();
+        let key = match o.id {
+            Some(id) => id.to_string(),
+            None => name.clone(),
+        };
+        let supplied = fields.iter().any(|f| f.0 == name && f.2.is_some());
+        if supplied {
+            expect_keys.insert(key);
+        }
+    }
+    let got_keys: BTreeSet<String> = map.keys().cloned().collect();
+    let mut out = head;
+    if got_keys != expect_keys {
+        out.push(tagged(
+            "keys-differ",
+            vec![
+                Sexp::List(expect_keys.iter().map(|k| string(k.clone())).collect()),
+                Sexp::List(got_keys.iter().map(|k| string(k.clone())).collect()),
+            ],
+        ));
+    }
+    match naga::back::pipeline_constants::process_overrides(&module, &info, &map) {
+        Err(e) => out.push(tagged("rejected", vec![string(format!("{e:?}")), string(format!("{e}"))])),
+        Ok((m2, _)) => {
+            out.push(atom("accepted"));
+            for (name, ty, val, _) in &fields {
+                let Some(v) = val else { continue };
+                let c = m2.constants.iter().find(|(_, c)| c.name.as_deref() == Some(name.as_str()));
+                let seen = c.map(|(_, c)| &m2.global_expressions[c.init]);
+                let ok = match (ty.as_str(), seen) {
+                    ("bool", Some(naga::Expression::Literal(naga::Literal::Bool(b)))) => (*b as u64) == *v,
+                    ("i32", Some(naga::Expression::Literal(naga::Literal::I32(x)))) => (*x as i64) == raw_i32[name],
+                    ("u32", Some(naga::Expression::Literal(naga::Literal::U32(x)))) => (*x as u64) == *v,
+                    ("f32", Some(naga::Expression::Literal(naga::Literal::F32(x)))) => (x.to_bits() as u64) == *v,
+                    ("f64", Some(naga::Expression::Literal(naga::Literal::F64(x)))) => x.to_bits() == *v,
+                    _ => false,
+                };
+                if !ok {
+                    out.push(tagged("value-differs", vec![string(name.clone()), atom(ty.clone()), nat(*v), string(format!("{seen:?}"))]));
+                }
+            }
+        }
+    }
+    tagged("ovres", out)
+}
+
+fn fnv64(bytes: &[u8]) -> u64 {
+    let mut h: u64 = 0xcbf29ce484222325;
+    for b in bytes {
+        h ^= *b as u64;
+        h = h.wrapping_mul(0x100000001b3);
+    }
+    h
+}
+
+fn mode_exec(a: &Args) {
+    let t0 = Instant::now();
+    let cases = read_cases(&a.cases);
+    let src_of: BTreeMap<String, String> = cases.iter().cloned().collect();
+    let work = a.root.join(format!("exec_{}", std::process::id()));
+    std::fs::create_dir_all(&work).unwrap();
+    let (units, slots) = generate(&cases, &a.opts);
+    let mut out = String::new();
+
+    // 1. which modules compile at all (same procedure as mode check)
+    let check_args = ["check", "--lib"];
+    let jobs = a.jobs.min(units.len().max(1));
+    warm_up(&a.root, &a.template, &work, jobs, &check_args);
+    let (verdicts, _) = check_units(a, &work, &units, &check_args);
+    for (id, oi, slot) in &slots {
+        let body = match slot {
+            Slot::Gen(c, d) => tagged("gen", vec![string(c.clone()), string(d.clone())]),
+            Slot::Unit(k) => match &verdicts[k] {
+                Verdict::Ok => continue,
+                v => verdict_sexp(v),
+            },
+        };
+        render_line(&mut out, tagged("mod", vec![string(id.clone()), nat(*oi as u64), body]));
+    }
+
+    // 2. test programs
+    let mut plans: BTreeMap<usize, ExecPlan> = BTreeMap::new();
+    let mut skips: Vec<(String, usize, String)> = vec![];
+    for u in &units {
+        if !matches!(verdicts[&u.k], Verdict::Ok) {
+            continue;
+        }
+        match plan_exec(u) {
+            Ok(p) => {
+                plans.insert(u.k, p);
+            }
+            Err(e) => skips.push((u.case_id.clone(), u.opt, e)),
+        }
+    }
+    let by_k: BTreeMap<usize, &Unit> = units.iter().map(|u| (u.k, u)).collect();
+    let krate = Crate::create(&work.join("run"), &a.root.join("target_build"), &a.template);
+    for f in ["support.rs", "main.rs"] {
+        std::fs::copy(a.template.join("exec_src").join(f), krate.dir.join("src").join(f)).expect("copy exec_src");
+    }
+    for (k, p) in &plans {
+        krate.write_src(&format!("m{k}.rs"), &by_k[k].text);
+        krate.write_src(&format!("t{k}.rs"), &p.code);
+    }
+    let mut active: BTreeSet<usize> = plans.keys().copied().collect();
+    let mut built = false;
+    for round in 0..5 {
+        let mut lib = String::from("pub mod support;\n");
+        for k in &active {
+            let _ = writeln!(lib, "{MOD_ATTR} pub mod m{k};\n{MOD_ATTR} pub mod t{k};");
+        }
+        lib.push_str("pub fn run_all(start: usize) {\n");
+        for k in &active {
+            let _ = writeln!(lib, "    if {k} >= start {{ println!(\"(begin {k})\"); let _ = std::panic::catch_unwind(|| t{k}::run()); }}");
+        }
+        lib.push_str("}\n");
+        krate.write_src("lib.rs", &lib);
+        let run = krate.cargo(&["build"]);
+        eprintln!("[exec] build round {round}: {} modules, {:.1}s, {} errors", active.len(), run.seconds, run.diags.len());
+        if run.success {
+            built = true;
+            break;
+        }
+        let mut bad: BTreeMap<usize, String> = BTreeMap::new();
+        for d in &run.diags {
+            if let Some((_, k)) = d.file {
+                bad.entry(k).or_insert_with(|| format!("test program does not compile: {} {} @ {}", d.code, d.msg, d.line));
+            }
+        }
+        if bad.is_empty() {
+            eprintln!("[exec] build failed without attributable errors:\n{}", run.stderr_tail);
+            break;
+        }
+        for (k, why) in bad {
+            active.remove(&k);
+            skips.push((by_k[&k].case_id.clone(), by_k[&k].opt, why));
+        }
+    }
+
+    // 3. run it
+    let (mut n_vbuf, mut n_ventry, mut n_fentry, mut n_ovr, mut n_source) = (0u64, 0u64, 0u64, 0u64, 0u64);
+    if built && !active.is_empty() {
+        let exe = krate.target.join("debug").join("batch_scratch");
+        let mut start = 0usize;
+        for _ in 0..active.len() + 1 {
+            let o = Command::new(&exe).arg(start.to_string()).output().expect("run test program");
+            let mut last_begin = None;
+            for line in String::from_utf8_lossy(&o.stdout).lines() {
+                if let Some(rest) = line.strip_prefix("(begin ") {
+                    last_begin = rest.trim_end_matches(')').parse::<usize>().ok();
+                } else if line.starts_with("(vbuf ") {
+                    n_vbuf += 1;
+                    out.push_str(line);
+                    out.push('\n');
+                } else if line.starts_with("(ventry ") {
+                    n_ventry += 1;
+                    out.push_str(line);
+                    out.push('\n');
+                } else if line.starts_with("(fentry ") {
+                    n_fentry += 1;
+                    out.push_str(line);
+                    out.push('\n');
+                } else if line.starts_with("(source ") {
+                    n_source += 1;
+                    let verdict = (|| {
+                        let p = sexp::parse(line)?;
+                        let Sexp::List(items) = p.first()? else { return None };
+                        let (Sexp::Atom(len), Sexp::Atom(h)) = (items.get(3)?, items.get(4)?) else { return None };
+                        let src = src_of.get(&by_k[&last_begin?].case_id)?;
+                        Some(len.parse::<usize>().ok()? == src.len() && h.parse::<u64>().ok()? == fnv64(src.as_bytes()))
+                    })();
+                    out.push_str(line.trim_end_matches(')'));
+                    out.push_str(match verdict {
+                        Some(true) => " same)\n",
+                        Some(false) => " differs)\n",
+                        None => " unreadable)\n",
+                    });
+                } else if line.starts_with("(ovr ") {
+                    n_ovr += 1;
+                    out.push_str(line);
+                    out.push('\n');
+                    // 4. the REAL naga override resolution on that map
+                    if let Some(k) = last_begin {
+                        if let Some(src) = src_of.get(&by_k[&k].case_id) {
+                            render_line(&mut out, resolve_overrides(src, line));
+                        }
+                    }
+                }
+            }
+            if o.status.success() {
+                break;
+            }
+            match last_begin {
+                Some(k) => {
+                    skips.push((by_k[&k].case_id.clone(), by_k[&k].opt, format!("test program crashed: {}", o.status)));
+                    start = k + 1;
+                }
+                None => break,
+            }
+        }
+    }
+    for (c, o, why) in &skips {
+        render_line(&mut out, tagged("skip", vec![string(c.clone()), nat(*o as u64), string(why.clone())]));
+    }
+    let secs = t0.elapsed().as_secs_f64();
+    render_line(
+        &mut out,
+        Sexp::List(vec![
+            atom("summary"),
+            atom("cases"),
+            nat(cases.len() as u64),
+            atom("modules"),
+            nat(units.len() as u64),
+            atom("executed"),
+            nat(active.len() as u64),
+            atom("built"),
+            atom(if built { "true" } else { "false" }),
+            atom("vbuf"),
+            nat(n_vbuf),
+            atom("ventry"),
+            nat(n_ventry),
+            atom("fentry"),
+            nat(n_fentry),
+            atom("ovr"),
+            nat(n_ovr),
+            atom("source"),
+            nat(n_source),
+            atom("skipped"),
+            nat(skips.len() as u64),
+            atom("seconds"),
+            atom(format!("{secs:.1}")),
+        ]),
+    );
+    std::fs::write(&a.out, out).expect("write result file");
+    eprintln!("[exec] cases {} modules {} executed {} vbuf {n_vbuf} ventry {n_ventry} fentry {n_fentry} ovr {n_ovr} skipped {} in {secs:.1}s", cases.len(), units.len(), active.len(), skips.len());
+    sweep_target(&a.root.join("target_build"));
+    finish(a, &work, jobs);
+}
+
 fn main() {
     let a = parse_args();
     std::fs::create_dir_all(&a.root).expect("create work root");
     match a.mode.as_str() {
         "check" => mode_check(&a),
         "encase" => mode_encase(&a),
+        "exec" => mode_exec(&a),
         other => {
             eprintln!("unknown mode {other}");
             std::process::exit(2);
